@@ -39,10 +39,11 @@ def run(ctx):
     h2c = rng.sample(h2c, min(len(h2c), 5000 if ctx.thorough else 500))
     hists += h2c
     g3 = ctx.instance("G3_C01", "VolumeImpl", volfam.GEN_ALL,
-                      dict(base, Datas={"e", "a", "b", "L"}, MetaSet={"m0", "m1", "m2"}, MaxOps=10))
+                      dict(base, Datas={"e", "a", "b", "L"}, MetaSet={"m0", "m1", "m2", "m3"}, MaxOps=10))
     hists += ctx.generate(g3, simulate=1500 if ctx.thorough else 150, depth=11)
     hists += volfam.random_hists(rng, 2000 if ctx.thorough else 250, 14, compaction=False)
-    hists += volfam.random_hists(rng, 1000 if ctx.thorough else 150, 14, compaction=False, datas=("a", "b", "L"))
+    hists += volfam.random_hists(rng, 1000 if ctx.thorough else 150, 14, compaction=False, datas=("a", "b", "L"),
+                                 metas=("m0", "m1", "m2", "m3"))
     volfam.execute_and_judge(ctx, hists, vttl="")
     ctx.rule = ("executions = TLC-generated histories of VolumeImpl (G2: one witness per (volume state, last op) over 2 keys "
                 "x 2 cookies x {empty, small} x {no metadata, name+mime+pairs+timestamp}, and over 1 key with 3 payloads x 3 "
